@@ -80,6 +80,9 @@ def make_data(case, d):
             df.index = ["train"] * k + ["test"] * (n - k)
         elif lay == "test_first":
             df.index = ["test"] * (n - k) + ["train"] * k
+        elif lay == "single_test":
+            # a part that holds exactly one instance
+            df.index = ["train"] * (n - 1) + ["test"]
         else:
             # the pre-defined parts are told apart by the row labels, wherever the rows are
             df.index = ["train" if (i % 3 != 1) else "test" for i in range(n)]
@@ -172,7 +175,9 @@ def same_records(got, exp, what):
         ei, et, ep = exp[k]
         ok = (np.array_equal(np.asarray(gi), np.asarray(ei)) and _vals_eq(gt, et) and _vals_eq(gp, ep))
         if not ok:
-            discs.append(D("record_content_differs:%s" % what, "%s: index %s/%s y_pred %s/%s" % (k, list(gi)[:4], list(ei)[:4], list(gp)[:4], list(ep)[:4])))
+            discs.append(D("record_content_differs:%s" % what, "%s: index %s/%s y_pred %s/%s (shapes %s/%s)" % (
+                k, np.atleast_1d(gi).tolist()[:4], np.atleast_1d(ei).tolist()[:4], np.atleast_1d(gp).tolist()[:4], np.atleast_1d(ep).tolist()[:4],
+                np.shape(gp), np.shape(ep))))
             break
     return discs
 
@@ -406,7 +411,7 @@ def cases(draw, all_points=True):
     if cvk == "single":
         cv["rs"] = draw(st.integers(0, 100))
         cv["shuffle"] = draw(st.booleans())
-    layout = draw(st.sampled_from(["train_first", "interleaved", "test_first"]))
+    layout = draw(st.sampled_from(["train_first", "interleaved", "test_first", "single_test"]))
     store = draw(st.sampled_from(["disk", "disk", "disk", "ram"]))
     return {
         "task": draw(st.sampled_from(["tsc", "tsc", "tsr"])), "n_datasets": draw(st.integers(1, 2)),
@@ -418,8 +423,23 @@ def cases(draw, all_points=True):
     }
 
 
+def enum_stores_and_splits(tier):
+    """Both stores x every way of splitting (k-fold incl. leave-one-out, ordered / shuffled single
+    split, the four pre-split layouts) x both tasks, on one small fixed configuration."""
+    cvs = [{"kind": "kfold", "k": 2}, {"kind": "kfold", "k": 3}, {"kind": "kfold", "k": 6},
+           {"kind": "single", "rs": 5, "shuffle": True}, {"kind": "single", "rs": 0, "shuffle": False}]
+    cvs += [{"kind": "presplit", "_layout": lay} for lay in ("train_first", "interleaved", "test_first", "single_test")]
+    for store in ("ram", "disk"):
+        for cv in cvs:
+            for task in ("tsc", "tsr"):
+                yield {"task": task, "n_datasets": 1, "n_strategies": 2, "n_inst": 6, "seed": 77, "cv": {k: v for k, v in cv.items() if k != "_layout"},
+                       "store": store, "predict_on_train": True, "save_fitted": False, "crash_points": [1, 4], "extra_column": False,
+                       "more_features": 2 if task == "tsc" else 0, "presplit_layout": cv.get("_layout", "train_first")}
+
+
 def subchecks():
-    return [SubCheck("orchestration", oracle, cases(), quick=56, thorough=400, shards_quick=14, shards_thorough=16,
+    return [SubCheck("stores_and_splits", oracle, enumerate_cases=enum_stores_and_splits, shards_quick=12, shards_thorough=12, exhaustive=True),
+            SubCheck("orchestration", oracle, cases(), quick=56, thorough=400, shards_quick=14, shards_thorough=16,
                      budget_quick=150.0)]
 
 
